@@ -41,6 +41,7 @@ func c06Shared(c *an.Ctx) an.SharedClassifier {
 		{"experimental/plugins/plugintypes", "Operator"}, {"experimental/plugins/plugintypes", "Action"},
 		{"experimental/plugins/plugintypes", "AuditLogWriter"}, {"experimental/plugins/plugintypes", "AuditLogFormatter"},
 		{"experimental/plugins/plugintypes", "BodyProcessor"},
+		{"experimental/plugins/macro", "Macro"}, // compiled macros hang off rules, actions and operators
 	} {
 		pk := c.P.Pkg(spec[0])
 		if pk == nil {
